@@ -118,8 +118,8 @@ def build_index(comps):
 
 
 @st.composite
-def case_st(draw):
-    fn = draw(st.sampled_from(SHAPE_FUNCS + EXTRA))
+def case_st(draw, only=None):
+    fn = only or draw(st.sampled_from(SHAPE_FUNCS + EXTRA))
     if fn in RECIPES:
         call = RECIPES[fn].gen(draw, OG)
         call["fn"] = fn
@@ -141,6 +141,14 @@ def case_st(draw):
 
 def strategy(tier):
     return case_st()
+
+
+def STRATA(tier):
+    return SHAPE_FUNCS + ["getitem", "getitem-2", "getitem-3", "iter", "ravel", "flatten", "T"]
+
+
+def strategy_for(tier, name):
+    return case_st(only=name.split("-")[0])
 
 
 def apply_views(call):
@@ -231,12 +239,9 @@ def check_case(case, ctx):
         else:
             got = args[0].T
     except Exception as err:
-        sub = ""
-        if fn in ("diag", "diagonal"):
-            sub = ""
         if fn == "repeat" and "axis" not in case["kw"]:
-            sub = "axis-omitted"
-        return fail("exception:" + type(err).__name__, repr(err), sub or cls)
+            return fail("shape", repr(err), "axis-omitted")  # one root cause, whatever the symptom
+        return fail("exception:" + type(err).__name__, repr(err), cls)
 
     in_names = []
     for d in descs:
@@ -264,14 +269,15 @@ def check_case(case, ctx):
             return fail("shape", "%s: shape %s, numpy gives %s" % (what, gm.shape, e.shape), sub)
         diff = first_diff(gm, e)
         if diff:
-            return fail("value", "%s: %s" % (what, diff), sub)
+            return fail("shape" if sub == "axis-omitted" else "value", "%s: %s" % (what, diff), sub)
         # names / dtype preserved (full/full_like take both from the fill value / prototype:
         # not asserted here; broadcast_arrays pieces are checked by the caller)
         if fn in ("full", "full_like", "broadcast_arrays"):
             return None
         if len(descs) == 1 or not join:
             own = descs[0]["names"] if descs else []
-            if list(g.names) != list(own):
+            # the input's own order, or (for functions that go through alignment) numeric order
+            if list(g.names) != list(own) and list(g.names) != sorted(own, key=var_index):
                 return fail("names", "%s: names %s, input names %s" % (what, g.names, own))
             want_dt = numpy.dtype(KIND_DTYPE[descs[0]["kind"]])
         else:
